@@ -97,7 +97,7 @@ type cnModeKey struct{}
 
 var errCnDial = errors.New("scripted dial failure")
 
-const cnDeadline = 20 * time.Second
+var cnDeadline = scaled(20 * time.Second)
 
 func init() { components["cn"] = &cnComp{} }
 
